@@ -4,7 +4,7 @@
 
 #![warn(missing_docs)]
 
-use chrono::prelude::{DateTime, Utc};
+use chrono::prelude::{DateTime, Datelike, Utc};
 use msi::{Package, Select};
 use safer_ffi::prelude::*;
 use std::{io, path::Path};
@@ -104,7 +104,14 @@ fn get_information(path: char_p::Ref<'_>) -> MsiInformation {
                     if let Some(time) = package.summary_info().creation_time()
                     {
                         let datetime: DateTime<Utc> = time.into();
-                        datetime.to_rfc2822().into()
+                        // A file can store times up to the year 60056, but
+                        // `to_rfc2822` panics on years with more than four
+                        // digits; fall back to RFC 3339 for those.
+                        if datetime.year() <= 9999 {
+                            datetime.to_rfc2822().into()
+                        } else {
+                            datetime.to_rfc3339().into()
+                        }
                     } else {
                         "".into()
                     }
